@@ -2,8 +2,11 @@
 # usage: try_mutant.sh <patch.diff> <PROP> [extra check args]  — applies a seeded change to /repo, runs the check, always undoes it.
 patch="$1"; prop="$2"; shift 2
 git -C /repo status --short | grep -v '^??' | grep . && { echo "/repo not clean"; exit 2; }
+cp /verif/evidence/$prop.json /tmp/evidence-$prop.keep 2>/dev/null
 git -C /repo apply "$patch" || { echo "patch does not apply"; exit 2; }
 cd /verif && ./check "$prop" "$@"; rc=$?
 git -C /repo checkout -- .
+# the evidence file describes the unchanged tree: put back what was there before
+[ -f /tmp/evidence-$prop.keep ] && mv /tmp/evidence-$prop.keep /verif/evidence/$prop.json
 echo "check exit code with mutant: $rc"
 exit $rc
